@@ -42,7 +42,7 @@ func runC13(c *Ctx) {
 	c.runWorkerWrites(eng, pkgs, "W", nil)
 	c.floor("W", 25)
 	c.runWorkerReads(eng, pkgs, "W.READ", nil)
-	c.floor("W.READ", 1)
+	c.floor("W.READ", 0)
 	c.runQueryPurity(eng, pkgs, "Q")
 	c.floor("Q", 300)
 	c.runLazyInit(eng, pkgs, "Z")
